@@ -32,7 +32,7 @@ LEVEL_NOTE = "trusts the Python references; says nothing about object kinds or s
 
 
 def runs(tier, seed):
-    k = 1 if tier == "quick" else 40
+    k = 1 if tier == "quick" else 10  # thorough ~ 1.1e6 evaluations, designed for <= 15 min on an idle 16-core box
     return [Run("ser_obj", cases=7000 * k, timeout=3000),
             Run("ser_malformed", cases=14000 * k, timeout=3000),
             Run("compactsize", cases=200 * k, params={"batch": 64}, shards=4 if k == 1 else None, timeout=3000),
